@@ -55,6 +55,7 @@ Inductive prim :=
 | PStoreErr                  (* socketXError.Store(err) *)
 | PCloseDie | PCloseRErr | PCloseWErr | PCloseLDie | PCloseLErr   (* close(chan) *)
 | PPropagateErr              (* Listener.notifyReadError: for each session s.notifyReadError *)
+| PCloseBacklog              (* Listener.closeBacklog: drain chAccepts, closing the sessions *)
 | PResched                   (* SystemTimedSched.Put(s.update, ..) *)
 | PProc (f : proc).          (* call of another generated function, inlined *)
 
